@@ -6,10 +6,9 @@ package snowflake
 // Comments only; compiled only with the build tag `verif`. Separate file because these two functions are
 // verified with mathematical `int` (the decimal fields) next to 64-bit ids.
 
-//@ arith mixed
 //@ index elt
 //@ property C07
-//@ opaquediv 1000000
+// (FromChStyle and CnStyle are verified with `arith mixed`: mathematical `int` for the decimal fields next to 64-bit ids)
 //
 // the instant denoted by calendar fields in a location (time.Date), as a function of its arguments
 //@ opaque dateval(y int, mo int, d int, h int, mi int, s int, ns int, loc *time.Location) int64
@@ -31,9 +30,118 @@ package snowflake
 //@ pure cnms(v string) int64 = dateval(ival(v[0:4]), ival(two(v, 0)), ival(two(v, 1)), ival(two(v, 2)), ival(two(v, 3)), ival(two(v, 4)), ival(v[14:17]) * 1000000, timeLoc) / 1000000 - _epoch
 //
 //@ func FromChStyle
+//@   arith mixed
 //@   ensures #accepts cnwf(v) && cnrange(v) ==> result1 == nil
 //@   ensures #value result1 == nil ==> result0 == (cnms(v) << tS()) | int64(ival(v[17:len(v)]))
 //@   modifies lastUnixNano
 //@   loop 1
 //@     invariant 0 <= i && i <= 5 && len(v) == 24 && isint(v[0:4]) && year == ival(v[0:4])
 //@     invariant #parsed forall k int :: { two(v, k) } 0 <= k && k < i ==> isint(two(v, k)) && es[k] == ival(two(v, k))
+//
+// ---- CnStyle: the eight fields, each the zero-padded numeral of its value, at fixed offsets ----
+// time values as terms: what time.Unix / In return and what the calendar accessors read are functions of their arguments
+//@ opaque tunix(sec int64, nsec int64) time.Time
+//@ opaque tin(t time.Time, loc *time.Location) time.Time
+//@ opaque tyear(t time.Time) int
+//@ opaque tmonth(t time.Time) int
+//@ opaque tday(t time.Time) int
+//@ opaque thour(t time.Time) int
+//@ opaque tminute(t time.Time) int
+//@ opaque tsecond(t time.Time) int
+//@ opaque tnano(t time.Time) int
+//@ func extern time.Unix(sec, nsec)
+//@   ensures result == tunix(sec, nsec) && (nsec == 0 ==> spec_unix(result) == sec) && (sec == 0 ==> spec_unixnano(result) == nsec)
+//@   modifies
+//@ func extern time.Time.In(t, loc)
+//@   ensures result == tin(t, loc)
+//@   modifies
+//@ func extern time.Time.Year(t)
+//@   ensures result == tyear(t)
+//@   modifies
+//@ func extern time.Time.Month(t)
+//@   ensures int(result) == tmonth(t)
+//@   modifies
+//@ func extern time.Time.Day(t)
+//@   ensures result == tday(t)
+//@   modifies
+//@ func extern time.Time.Hour(t)
+//@   ensures result == thour(t)
+//@   modifies
+//@ func extern time.Time.Minute(t)
+//@   ensures result == tminute(t)
+//@   modifies
+//@ func extern time.Time.Second(t)
+//@   ensures result == tsecond(t)
+//@   modifies
+//@ func extern time.Time.Nanosecond(t)
+//@   ensures result == tnano(t)
+//@   modifies
+//
+// the time value CnStyle formats for the millisecond count ms (since the Unix epoch)
+//@ pure cnT(ms int64) time.Time = tin(tunix(ms / 1000, (ms % 1000) * 1000000), timeLoc)
+//@ lemma cn_calendar(ms int64)
+//@   trusted package time: the calendar fields of an instant before the year 10000 are in their ranges, and time.Date of the fields read from an instant in a location gives that instant back (at millisecond precision; timeLoc has no repeated local time at or after the epochs in use)
+//@   requires 0 <= ms && ms < 253402300800000
+//@   ensures #ranges 0 <= tyear(cnT(ms)) && tyear(cnT(ms)) <= 9999 && 1 <= tmonth(cnT(ms)) && tmonth(cnT(ms)) <= 12 && 1 <= tday(cnT(ms)) && tday(cnT(ms)) <= 31 && 0 <= thour(cnT(ms)) && thour(cnT(ms)) <= 23 && 0 <= tminute(cnT(ms)) && tminute(cnT(ms)) <= 59 && 0 <= tsecond(cnT(ms)) && tsecond(cnT(ms)) <= 59 && 0 <= tnano(cnT(ms)) && tnano(cnT(ms)) <= 999999999
+//@   ensures #inverse dateval(tyear(cnT(ms)), tmonth(cnT(ms)), tday(cnT(ms)), thour(cnT(ms)), tminute(cnT(ms)), tsecond(cnT(ms)), (tnano(cnT(ms)) / 1000000) * 1000000, timeLoc) / 1000000 == ms
+//@ lemma pad4(a interface{}, b interface{}, c interface{})
+//@   trusted package fmt: the verb %0Nd applied to a non-negative integer below 10^N gives exactly N characters, a decimal numeral that strconv.Atoi maps back to the integer
+//@   auto sprintf("%04d", a, b, c)
+//@   ensures tag(a) == tagof(int) && 0 <= int(a) && int(a) <= 9999 ==> len(sprintf("%04d", a, b, c)) == 4 && isint(sprintf("%04d", a, b, c)) && ival(sprintf("%04d", a, b, c)) == int(a)
+//@ lemma pad2(a interface{}, b interface{}, c interface{})
+//@   trusted package fmt: the verb %0Nd applied to a non-negative integer below 10^N gives exactly N characters, a decimal numeral that strconv.Atoi maps back to the integer
+//@   auto sprintf("%02d", a, b, c)
+//@   ensures tag(a) == tagof(int) && 0 <= int(a) && int(a) <= 99 ==> len(sprintf("%02d", a, b, c)) == 2 && isint(sprintf("%02d", a, b, c)) && ival(sprintf("%02d", a, b, c)) == int(a)
+//@ lemma pad2m(a interface{}, b interface{}, c interface{})
+//@   trusted package fmt: the verb %0Nd applied to a non-negative integer below 10^N gives exactly N characters, a decimal numeral that strconv.Atoi maps back to the integer
+//@   auto sprintf("%02d", a, b, c)
+//@   ensures tag(a) == tagof(time.Month) && 0 <= time.Month(a) && time.Month(a) <= 99 ==> len(sprintf("%02d", a, b, c)) == 2 && isint(sprintf("%02d", a, b, c)) && ival(sprintf("%02d", a, b, c)) == int(time.Month(a))
+//@ lemma pad3(a interface{}, b interface{}, c interface{})
+//@   trusted package fmt: the verb %0Nd applied to a non-negative integer below 10^N gives exactly N characters, a decimal numeral that strconv.Atoi maps back to the integer
+//@   auto sprintf("%03d", a, b, c)
+//@   ensures tag(a) == tagof(int) && 0 <= int(a) && int(a) <= 999 ==> len(sprintf("%03d", a, b, c)) == 3 && isint(sprintf("%03d", a, b, c)) && ival(sprintf("%03d", a, b, c)) == int(a)
+//@ lemma pad7(a interface{}, b interface{}, c interface{})
+//@   trusted package fmt: the verb %0Nd applied to a non-negative integer below 10^N gives exactly N characters, a decimal numeral that strconv.Atoi maps back to the integer
+//@   auto sprintf("%07d", a, b, c)
+//@   ensures tag(a) == tagof(int64) && 0 <= int64(a) && int64(a) <= 9999999 ==> len(sprintf("%07d", a, b, c)) == 7 && isint(sprintf("%07d", a, b, c)) && ival(sprintf("%07d", a, b, c)) == int(int64(a))
+//
+//@ lemma cnext(s string, t string)
+//@   trusted string extensionality: Go strings of equal length with equal bytes are equal
+//@   requires len(s) == len(t) && forall k int :: { s[k] } 0 <= k && k < len(s) ==> s[k] == t[k]
+//@   ensures s == t
+//@ pure cnok(id int64) bool = layoutOK() && id >= 0 && 0 <= (id >> tS()) + _epoch && (id >> tS()) + _epoch < 253402300800000 && -1125899906842624 <= _epoch && _epoch <= 1125899906842624
+//@ pure cnms0(id int64) int64 = (id >> tS()) + _epoch
+//@ func CnStyle
+//@   arith mixed
+//@   requires cnok(id)
+//@   maypanic
+//@   ensures #len len(result) == 24
+//@   ensures #year result[0:4] == sprintf("%04d", any(tyear(cnT(cnms0(id)))), nil, nil)
+//@   ensures #month two(result, 0) == sprintf("%02d", any(time.Month(tmonth(cnT(cnms0(id))))), nil, nil)
+//@   ensures #day two(result, 1) == sprintf("%02d", any(tday(cnT(cnms0(id)))), nil, nil)
+//@   ensures #hour two(result, 2) == sprintf("%02d", any(thour(cnT(cnms0(id)))), nil, nil)
+//@   ensures #minute two(result, 3) == sprintf("%02d", any(tminute(cnT(cnms0(id)))), nil, nil)
+//@   ensures #second two(result, 4) == sprintf("%02d", any(tsecond(cnT(cnms0(id)))), nil, nil)
+//@   ensures #milli result[14:17] == sprintf("%03d", any(tnano(cnT(cnms0(id))) / 1000000), nil, nil)
+//@   ensures #left result[17:len(result)] == sprintf("%07d", any(id & lowmask()), nil, nil)
+//@   modifies region($alloc)
+//@   use cn_calendar(cnms0(id)), cn_left_digits(id)
+//@   use [year] cnext(result[0:4], sprintf("%04d", any(tyear(cnT(cnms0(id)))), nil, nil))
+//@   use [month] cnext(two(result, 0), sprintf("%02d", any(time.Month(tmonth(cnT(cnms0(id))))), nil, nil))
+//@   use [day] cnext(two(result, 1), sprintf("%02d", any(tday(cnT(cnms0(id)))), nil, nil))
+//@   use [hour] cnext(two(result, 2), sprintf("%02d", any(thour(cnT(cnms0(id)))), nil, nil))
+//@   use [minute] cnext(two(result, 3), sprintf("%02d", any(tminute(cnT(cnms0(id)))), nil, nil))
+//@   use [second] cnext(two(result, 4), sprintf("%02d", any(tsecond(cnT(cnms0(id)))), nil, nil))
+//@   use [milli] cnext(result[14:17], sprintf("%03d", any(tnano(cnT(cnms0(id))) / 1000000), nil, nil))
+//@   use [left] cnext(result[17:len(result)], sprintf("%07d", any(id & lowmask()), nil, nil))
+//
+// ---- round trip ----
+//@ func verifRoundTripCn
+//@   arith mixed
+//@   opt int2bv-inverse
+//@   requires cnok(id)
+//@   maypanic
+//@   ensures #roundtrip result1 == nil && result0 == id
+//@   modifies region($alloc), lastUnixNano
+//@   use cn_calendar(cnms0(id)), cn_left_digits(id)
+
